@@ -14,7 +14,7 @@ import math
 import numpy as np
 
 from fsmc import bases, tissue as T, fsutil, solvecase as SC
-from fsmc.explorer import ProductSystem
+from fsmc.explorer import ProductSystem, ListSystem
 from fsmc.ref import nnls as RN
 
 PID = "C05"
@@ -25,7 +25,7 @@ BOUND = {"quick": "2 bases x {equilibrium, 3 amplitudes x 4 patterns, 2 scales} 
 ASSUMPTIONS = ["KKT tolerance 1e-9 x scale (default path); iterative back-ends: feasible and cost within (1+1e-4) ('lsq') / (1+1e-6) ('lsq_linear') of the certified optimum; scale = max(1,|A|max) x max(1,|b|max)",
                "'lsq_linear' is judged on consistent systems only (as the statement says)",
                "with allow_negatives=True a solution with negative tensions is only required to solve the square system exactly"]
-REQUIRED_TAGS = {"all": ["rawinv_only_last_negative", "rawinv_only_first_negative", "rawinv_only_multiplier_negative", "path:inv", "path:nnls-fallback", "path:lsq", "path:lsq_linear", "rhs:velocity", "unique", "square", "wide", "active_bound", "noisy"]}
+REQUIRED_TAGS = {"all": ["rawinv_only_last_negative", "rawinv_only_first_negative", "rawinv_only_multiplier_negative", "path:inv", "path:nnls-fallback", "path:lsq", "path:lsq_linear", "rhs:velocity", "unique", "square", "wide", "active_bound", "noisy", "fixture"]}
 
 
 def judge(r, method, allow_negatives, consistent, viol, known, tags):
@@ -149,6 +149,7 @@ def judge(r, method, allow_negatives, consistent, viol, known, tags):
 
 
 FAMILIES = None
+FURROW = ["/repo/tests/data/furrow_gauss_velocity/stage%d.dmp" % i for i in range(8)]
 
 
 def tissue_variants(base, amps, patterns, scales):
@@ -246,6 +247,46 @@ class Solver(ProductSystem):
         return {"viol": viol, "known": known, "tags": sorted(set(tags)), "cls": cls, "nontrivial": r.M.shape[0] > 0 and r.M.shape[1] > 0}
 
 
+def eval_fixture(d):
+    """shipped Surface Evolver dumps (real fixtures): static and velocity right-hand sides"""
+    import forsys as fs
+    import forsys.surface_evolver as fse
+    import forsys.frames as ff
+    files, t, rhs, neg, method = d["files"], d["t"], d["rhs"], d["neg"], d["method"]
+    viol, known, tags = [], [], ["fixture"]
+    with fsutil.quiet():
+        frames = {}
+        for i, f in enumerate(files):
+            se = fse.SurfaceEvolver(f)
+            frames[i] = ff.Frame(i, se.vertices, se.edges, se.cells, time=float(i))
+        s = fs.ForSys(frames, cm=False)
+    r = SC.Solved()
+    r.exc = None
+    kw = {"allow_negatives": neg}
+    if method:
+        kw["method"] = method
+    if rhs == "velocity":
+        kw["b_matrix"] = "velocity"
+        tags.append("rhs:velocity")
+    try:
+        with fsutil.quiet() as w:
+            s.build_force_matrix(when=t)
+            r.fm = s.force_matrices[t]
+            r.M = np.array(r.fm.matrix, float)
+            s.solve_stress(when=t, **kw)
+        r.warnings = [str(x.message) for x in w]
+    except Exception as ex:
+        if method == "fix_stress":
+            return {"viol": [], "known": [{"id": "F9", "exc": fsutil.exc_str(ex)}], "tags": tags + ["fix_stress_raises"], "cls": "fixture-fix_stress", "nontrivial": False}
+        return {"viol": [{"what": "solve raised on a shipped fixture", "detail": fsutil.exc_str(ex)}], "tags": tags, "cls": "exc"}
+    r.forces = [float(s.forces[t][i]) for i in range(len(s.forces[t]))]
+    r.record = getattr(r.fm, "_verif_record", None)
+    consistent = False
+    judge(r, method, neg, consistent, viol, known, tags)
+    return {"viol": viol, "known": known, "tags": sorted(set(tags)), "cls": "fixture/%s/%s/%s/%s" % (files[t].split("/")[-1], rhs, neg, method),
+            "nontrivial": True}
+
+
 def deletions(base, nmax):
     at = bases.get(base)
     cells = sorted(at["C"], key=int)
@@ -275,6 +316,9 @@ def build(tier, seed):
         bumps = [["eq"]] + [["bump", j, a, d] for j in range(10) for a in (0.2, 0.35, 0.5) for d in range(8)]
         return [Solver("whole", [["whole", "v5x5"], ["whole", "v6x5"], ["whole", "v4x4p%d" % (seed + 1)]], 3, var),
                 Solver("bumps", [["whole", "v5x5"]], 2, bumps),
+                ListSystem("shipped-fixtures", [{"files": FURROW[:2], "t": 0, "rhs": rh, "neg": False, "method": m}
+                                                for rh in ("static", "velocity") for m in (None, "lsq_linear")] +
+                           [{"files": ["/repo/tests/data/initial_furrow.dmp"], "t": 0, "rhs": "static", "neg": True, "method": None}], eval_fixture),
                 Solver("subtissues", subs, 1, [["eq"], ["noise", 0.08, 1]]),
                 Solver("deletions", deletions("v5x5", 2), 1, [["eq"], ["noise", 0.08, 2], ["noise", 0.2, 0]])]
     var = tissue_variants(None, [0.02, 0.08, 0.2], [0, 1, 2, 3], [1e-3, 1e3])
@@ -282,5 +326,8 @@ def build(tier, seed):
     bumps = [["eq"]] + [["bump", j, a, d] for j in range(10) for a in (0.2, 0.35, 0.5) for d in range(8)]
     return [Solver("whole", [["whole", "v5x5"], ["whole", "v6x5"], ["whole", "v6x6"], ["whole", "v7x6"], ["whole", "v5x4p%d" % (seed + 1)]], 5, var),
             Solver("bumps", [["whole", "v5x5"]], 3, bumps),
+            ListSystem("shipped-fixtures", [{"files": FURROW, "t": t, "rhs": rh, "neg": ng, "method": m}
+                                            for t in (0, 3, 7) for rh in ("static", "velocity") for ng in (False, True) for m in (None, "lsq", "lsq_linear", "fix_stress")] +
+                       [{"files": [f], "t": 0, "rhs": "static", "neg": False, "method": m} for f in ("/repo/tests/data/initial_furrow.dmp", "/repo/tests/data/last_furrow.dmp", "/repo/tests/data/12_12/step_20.dmp") for m in (None, "lsq")], eval_fixture),
             Solver("subtissues", subs, 2, [["eq"], ["noise", 0.08, 1], ["noise", 0.2, 2]]),
             Solver("deletions", deletions("v6x5", 3), 2, [["eq"], ["noise", 0.08, 2], ["noise", 0.2, 0]])]
